@@ -13,6 +13,7 @@ use std::collections::BTreeMap;
 
 mod decode;
 mod gen;
+mod mdbytes;
 mod obs;
 use decode::Fig;
 use gen::*;
@@ -448,9 +449,13 @@ pub fn run(rep: &mut Report) {
         }
     }
     rep.notes.push(format!("{} printed figures checked against the model's printedOK", figs.len()));
+    mdbytes::run(rep);
 }
 
 pub fn replay(rep: &mut Report, case: &serde_json::Value) {
+    if case["op"].as_str().map(|o| o.starts_with("c13.md.")).unwrap_or(false) {
+        return mdbytes::replay(rep, case);
+    }
     let Some((c, writer)) = case_from_json(case) else {
         rep.notes.push("replay file has no C13 case".into());
         return;
